@@ -150,6 +150,16 @@ CHECKS = {
             "to 60 (quick) / 200 (thorough) writes.",
             "Trusted: the faulty socket subclass; descriptors compared after gc.collect().",
             "DESIGN.md §3 C20"),
+    "C01": ("exploration",
+            "runtime monitoring: audit-hook + interposed stat/lstat/access/readlink monitor on every request, "
+            "three-world differential (only the outside of the root and the cwd differ), not-found oracle for climbing "
+            "requests, snapshot of everything outside the root",
+            "Held on the executions produced: ~5 700 requests (quick) per run: every object of generated sites in every "
+            "protocol view, traversal tokens at every path position, climbs from directories/archives/virtual-argument "
+            "suffixes, 1-3 percent-encoding layers, URL: forms, random lines; both handler lists; worlds A/B/C.",
+            "Trusted: CPython audit events (no events exist for stat-family calls: those are interposed as os module "
+            "attributes); helper programs' own effects are attributed to the helper; no symlink leaves the root.",
+            "DESIGN.md §3 C01"),
 }
 
 NOT_YET = "check not built yet in this session (work in progress); see DESIGN.md §3 for the planned monitor"
